@@ -900,6 +900,14 @@ int EGLPNUM_TYPENAME_ILLlib_newrow (
 {
 	int rval = 0;
 
+	/* the stored norms do not cover the new row; drop them so that they are
+	 * recomputed instead of being read past their end */
+	if (B)
+	{
+		EGLPNUM_TYPENAME_EGlpNumFreeArray (B->rownorms);
+		EGLPNUM_TYPENAME_EGlpNumFreeArray (B->colnorms);
+	}
+
 	rval = EGLPNUM_TYPENAME_ILLlib_addrow (lp, B, 0, 0, 0, rhs, sense, range, name);
 	CHECKRVALG (rval, CLEANUP);
 
